@@ -9,3 +9,34 @@ NOTES["C18"] = dict(
           "partition.hpp/topology.hpp validated against the real classes on every run, int overflow outside the model, MPI_Allgather as a parameter."),
     technique="Lean 4 proof (induction + omega) on an executable model; exhaustive model/implementation correspondence",
 )
+
+NOTES["C07"] = dict(
+    text=("Lean theorems over an arbitrary commutative monoid of scalars, unbounded sizes: every conversion COO/CSR/CSC, copy, sort, move_diag, "
+          "remove_duplicates (with the exact drop rule), transpose (image transposed, dims swapped), add and subtract preserve the dense image; "
+          "well-formedness and order postconditions; chains by composition. The executable model is output-equal (all index/value arrays and "
+          "flags) to the real Matrix classes on generated matrices and conversion chains; the dense-image predicate is also evaluated on the "
+          "implementation's output. Sequential classes only at this commit (distributed counterparts: see notes)."),
+    note=("Trusted: Lean kernel + standard axioms; hand-written model tied by correspondence (ASan build); std::sort tie order canonicalised; "
+          "integer-valued doubles; block formats and distributed conversions not yet covered."),
+    technique="Lean 4 proof (permutation/bucketing lemmas) on an executable model; array-level model/implementation correspondence",
+)
+NOTES["C02"] = dict(
+    text=("Lean theorems over an arbitrary commutative (semi)ring: each kernel (append, append_T, append_neg, append_neg_T, CSR row kernels, "
+          "residual, mult_T) returns b +/- A x entry by entry for lists of any length; the action equals the dense image times x; storage order "
+          "and format are irrelevant (conversions are permutations of the entry list). The distributed operations are tied by correspondence: "
+          "results of mult/mult_append/mult_T/residual on every generated layout (default, explicit, empty ranks, columns without rows), standard "
+          "and topology-aware, equal the product with the global triplets bit for bit."),
+    note=("Trusted: Lean kernel + standard axioms; exact arithmetic (rounding/reassociation outside the theorem; runs use integer-valued data); "
+          "the distributed algorithm itself is validated per input, not proved for all layouts, at this commit."),
+    technique="Lean 4 proof (induction over entry lists) on an executable model; exact differential runs against the real kernels and ParMatrix operations",
+)
+NOTES["C06"] = dict(
+    text=("Lean theorems over an arbitrary commutative semiring: the Gustavson product with linked-list accumulation and drop rule satisfies "
+          "den C i j = (let s := sum_k A i k * B k j; if big s then s else 0) for all well-formed A (duplicates allowed), likewise A^T B, the "
+          "Galerkin identity for P^T(AP), and the column-map variants. The model is array-equal (emission order included) to the real sequential "
+          "kernels; distributed mult, mult_T and the Galerkin product are tied by correspondence on row/inner/column layouts with empty ranks, "
+          "standard and topology-aware, against the product of the global triplets."),
+    note=("Trusted: Lean kernel + standard axioms; exact arithmetic; distributed algorithm (row exchange, column renumbering) validated per input, "
+          "not proved for all layouts, at this commit."),
+    technique="Lean 4 proof (sums over association lists) on an executable model; array-level and dense-image correspondence",
+)
